@@ -114,6 +114,7 @@ type Plan struct {
 	Users  []UserPlan   `json:"users,omitempty"`
 	Faults []vsys.Fault `json:"faults,omitempty"`
 	Stop   StopPlan     `json:"stop"`
+	Sched  []string     `json:"sched,omitempty"` // recorded scheduler decisions to follow first ("option|quantum")
 	UDP    *UDPPlan     `json:"udp,omitempty"`
 	Enum   bool         `json:"enum,omitempty"`   // C18: enumerate single faults over this scenario
 	EnumK  int          `json:"enum_k,omitempty"` // per site, call indexes 1..EnumK
